@@ -295,6 +295,12 @@ def misc(wd, rng, page_size=512, rows=300, tag="misc"):
     c.execute("CREATE INDEX wc_x ON Wc(x DESC)")
     c.execute("CREATE TABLE tp(k TEXT PRIMARY KEY, v)")
     c.execute("CREATE TABLE tn(k TEXT COLLATE NOCASE PRIMARY KEY, v) WITHOUT ROWID")
+    # ordinary columns that carry the names of the rowid pseudo columns: the column wins
+    c.execute('CREATE TABLE shadow(oid TEXT, "rowid" INTEGER, _rowid_, v)')
+    c.execute("CREATE TABLE shadow2(a INTEGER PRIMARY KEY, OID, v)")
+    for n in range(15):
+        c.execute("INSERT INTO shadow VALUES(?,?,?,?)", ("o%d" % n, n * 100, None if n % 3 else n, n))
+        c.execute("INSERT INTO shadow2 VALUES(?,?,?)", (n * 7 + 1, "x%d" % n, n))
     # identifiers that differ only in the case of a non-ASCII letter are different identifiers
     c.execute("CREATE TABLE uc(É, é, ÜBER, über, b)")
     c.execute("CREATE TABLE ucw(É, é, v, PRIMARY KEY(é, É)) WITHOUT ROWID")
@@ -320,6 +326,8 @@ def misc(wd, rng, page_size=512, rows=300, tag="misc"):
     db.tables["tp"] = dict(kind="rowid", cols=["k", "v"], pkindex="sqlite_autoindex_tp_1")
     db.tables["tn"] = dict(kind="norowid", cols=["k", "v"], pk=[("k", "nocase", False)])
     db.tables["uc"] = dict(kind="rowid", cols=["É", "é", "ÜBER", "über", "b"])
+    db.tables["shadow"] = dict(kind="rowid", cols=["oid", "rowid", "_rowid_", "v"])
+    db.tables["shadow2"] = dict(kind="ipk", cols=["a", "OID", "v"])
     db.tables["ucw"] = dict(kind="norowid", cols=["É", "é", "v"], pk=[("é", "", False), ("É", "", False)])
     db.indexes["mc_part"] = dict(table="Mc", cols=[("val", "", False)], where="n > 3")
     db.indexes["mc_expr"] = dict(table="Mc", cols=[("n + 1", "", False), ("Name", "nocase", False)])
